@@ -699,6 +699,9 @@ def runCase (xs : List Sexp) : Option String :=
     let x ← toOperand xw xv
     let y ← toOperand yw yv
     pure (kv "r" (optStr (fun (p : Nat × Nat) => toString p.1 ++ ":" ++ toString p.2) (Impl.evalBin op x y)))
+  | [.atom "uun", .atom op, w, a] => do
+    let o ← match op with | "neg" => some Impl.UnOp.neg | "pos" => some .pos | "abs" => some .abs | _ => none
+    pure (kv "r" (optStr (fun (p : Nat × Nat) => toString p.1 ++ ":" ++ toString p.2) (Impl.evalUn o (← atomNat w) (← atomNat a))))
   | [.atom "upow3", w, a, e, m] => do
     pure (kv "r" (optStr toString (Impl.pow3 (← atomNat w) (← atomNat a) (← atomNat e) (← atomInt m))))
   | [.atom "urefl", op, xw, xv, yw, yv] => do
